@@ -11,7 +11,7 @@ import YaegiVerif.Generated.C15
      IDS   = ((name 1|0) …)          1 = denotes the package-level object, 0 = a local / field key of that name
      MAIN  = (label) | ()            AFTER = (label …)  what main's own calls log after that
    answer: class=… deps=… yorder=… ylog=… ilog=… regs=… syms=… gdeps=… gorder=… glog=… slog=…
-     deps/gdeps  i:d,d;i:d…        (collected dependencies per specification of the list getVars builds / per unit)
+     deps/gdeps  i:d,d;i:d…        (what getVarDependencies returns per specification of the list getVars builds / dependencies per unit)
      slog        the specification's rules with one node per initialisation step (runGoS)
      yorder/gorder  i,i,i | loop   ylog/ilog/glog  label,label,…[,!error] | -
      regs  key@pos,…[,main]        the init nodes of the package given as one file (pos = ordinal among the function declarations)
@@ -144,7 +144,9 @@ def handle (args : List Sexp) : String :=
        else if gtaRejects d p then
          s!"class={classifySrc s} deps=err yorder=err {tail}"
        else
-         s!"class={classifySrc s} deps={showDeps gy} yorder={showRes (orderY gy)} {tail}"
+         -- `deps=`: what `getVarDependencies` returns for every specification (the hook calls it itself,
+         -- whatever the loop of `genGlobalVarDecl` skips); `yorder=`: decided from what that loop collected
+         s!"class={classifySrc s} deps={showDeps (collectDepsY { d with collectSkip := .none } p)} yorder={showRes (orderY gy)} {tail}"
      | none => "bad-op")
   | [.atom "prog", dir, .list subs, mimps, files, main, after] =>
     (match dir.bool?, subs.mapM parseSub, mimps.atoms?, parseSrc files main after with
